@@ -30,6 +30,8 @@ PROPERTY Act_C15_PositionExact_
 PROPERTY Act_C15_NoSellUnheld_
 PROPERTY Act_C15_EquityMove_
 PROPERTY Act_C04_RejectIntact_
+PROPERTY Act_C03_NoValueCreation_
+PROPERTY Act_C03_NoOverRedemption_
 PROPERTY Act_C16_SettleExactlyWhenDue_
 PROPERTY Act_C16_Payoff_
 PROPERTY Act_C16_TradeOnlyWhenOpen_
